@@ -67,6 +67,7 @@ served as the regression test):
 | C05-r71, C05-r72 | C05 | a fast path of the routine that consumes the variable-time generator multiply drops the product; `PublicKey.Point()` hands out the stored point, which the Schnorr conversion then negates - both break clauses C05 states ("the variable-time generator multiply used by verification", "every private scalar d is mapped to the public point d*G") that only C16 / C10 decided | C05 also runs `C16-1` (the double multiplication, the only consumer of `scalarBaseMultVartime`) and the accessor rule `C10-4` |
 | C15-r72 | C15 | an up-front length check in `SetUniformBytes` with `>=` for `>`: 64-byte uniform strings panic; the rule compared values on returning paths only | `C15-3/SetUniformBytes/lengths`: for every length 32..64 (what `SetWideBytes` reduces, C01) the call returns and no panic is reachable |
 | C20-r72 | C20 | default entropy taken from a package-level `bufio.Reader`: the write to shared state happens inside `io.ReadFull`, whose reader argument was summarised as read-only | a reader's state is memory: `io.ReadFull` writes its reader (user-supplied readers stay the caller's responsibility in rule 2; a package-level one is shared state) |
+| C08-r81, C09-r82, C11-r81, C11-r82 | C08, C09, C11 | `Verify` refusing hashes that are not linked in; `Sign` refusing the RFC 6979 selector for digests other than 32 bytes; the recoverable parser masking the id byte; `Verify` no longer comparing the recovered key - each breaks a clause the property states ("verifies ... in every encoding", "for every key and digest", "ids outside [0,3] are errors", "no other id does") that only C07 / C08 / C12 decided | C08 runs `C07-3` (Verify's options and encodings), C09 runs `C08-3` (Sign hands every admissible digest and the reader on), C11 runs `C12-2` and `C07-3`; `crypto.Hash.Available` is an opaque boolean that shows up in any accept set depending on it |
 | C19-r22 | C19 (after the relevance filter was added) | reachability was computed in the amd64 configuration only; the portable lookup is the only caller that passes non-0/1 values to `Uint64Equal` | relevance is the union over every loaded build configuration |
 ''')
 s = open('/verif/DESIGN.md').read()
